@@ -13,8 +13,9 @@ SPEC = dict(
              'the denoted root trees (hypothesis: each denoted cell passes the cell constructor; H abstract); '
              '(2) c05_trunc_ext: of two byte strings one of which is a proper prefix of the other at most one is accepted, hence every proper prefix '
              'and every proper extension of an accepted input (in particular of every encoding) is rejected; '
-             '(3) c05_crc_single_bit: an accepted CRC-protected input is rejected after ANY non-zero corruption confined to one byte '
-             '(all single-bit flips, every message length: CRC-32C step is linear with trivial kernel; magic/flag-byte flips via the length fields); '
+             '(3) c05_crc_single_bit: an accepted CRC-protected input (in particular every valid encoding with CRC) is rejected after flipping '
+             'ANY single bit, for every message length (CRC-32C bit step is linear with trivial kernel; magic flips: the magics differ in every '
+             'byte; CRC-flag flip: length fields), and after any non-zero error pattern inside one byte other than the flag byte; '
              '(4) c05_bad_refs: a record with a reference >= cells or <= its own position makes the parse fail. '
              'The model is tied to the library by differential correspondence on conforming encodings from two independent encoders '
              '(Lean spec encoder through the driver, Python transcription in the harness), on every truncation/extension, all single-bit flips, '
